@@ -172,41 +172,42 @@ CO_ERR CONmtHbConsActivate(CO_HBCONS *hbc, uint16_t time, uint8_t nodeid)
     CO_HBCONS  *found = 0;
 
     nmt = &(hbc->Node->Nmt);
-    prev = 0;
-    act  = nmt->HbCons;
+    act = nmt->HbCons;
     while (act != 0) {
         if (act->NodeId == nodeid) {
             found = act;
             break;
         }
-        prev = act;
         act  = act->Next;
     }
 
-    if (found != 0) {
-        if (time > 0) {
-            result = CO_ERR_OBJ_INCOMPATIBLE;
-        } else {
-            if (hbc->Tmr >= 0) {
-                err = COTmrDelete(&nmt->Node->Tmr, hbc->Tmr);
-                if (err < 0) {
-                    result = CO_ERR_TMR_DELETE;
-                }
-            }
-            hbc->Time   = time;
-            hbc->NodeId = nodeid;
-            hbc->Tmr    = -1;
-            hbc->Event  = 0;
-            hbc->State  = CO_INVALID;
-            hbc->Node   = nmt->Node;
-            if (prev == 0) {
-                nmt->HbCons = hbc->Next;
-            } else {
-                prev->Next  = hbc->Next;
-            }
-            hbc->Next   = 0;
-        }
+    if ((found != 0) && (time > 0)) {
+        /* node is monitored already */
+        result = CO_ERR_OBJ_INCOMPATIBLE;
     } else {
+        /* stop the monitoring of this consumer: remove it from the
+         * list of active consumers and delete its running timer */
+        prev = 0;
+        act  = nmt->HbCons;
+        while (act != 0) {
+            if (act == hbc) {
+                if (hbc->Tmr >= 0) {
+                    err = COTmrDelete(&nmt->Node->Tmr, hbc->Tmr);
+                    if (err < 0) {
+                        result = CO_ERR_TMR_DELETE;
+                    }
+                }
+                if (prev == 0) {
+                    nmt->HbCons = hbc->Next;
+                } else {
+                    prev->Next  = hbc->Next;
+                }
+                break;
+            }
+            prev = act;
+            act  = act->Next;
+        }
+
         hbc->Time   = time;
         hbc->NodeId = nodeid;
         hbc->Tmr    = -1;
